@@ -1,9 +1,11 @@
 CONSTANTS
-  ChannelNames = {"sheet_name", "defined_name", "hyperlink_target", "hyperlink_location", "hyperlink_tooltip", "table_name", "table_column", "numfmt_code", "font_name", "dv_prompt", "custom_property_name", "cell_text", "formula_text", "comment_author", "comment_text", "header_footer", "doc_property", "defined_name_address"}
+  ChannelNames = {"sheet_name", "defined_name", "hyperlink_target", "hyperlink_location", "hyperlink_tooltip", "table_name", "table_column", "numfmt_code", "font_name", "dv_prompt", "custom_property_name", "cell_text", "formula_text", "comment_author", "comment_text", "header_footer", "doc_property", "defined_name_address", "cached_string"}
   IdReaders = {"defined_name", "hyperlink_target", "hyperlink_location", "hyperlink_tooltip", "table_name", "table_column", "numfmt_code", "font_name", "dv_prompt", "custom_property_name"}
   IdWriters = {}
   MaxLen = 2
   MaxGen = 2
+  XChannels = {"cell_text", "cached_string"}
+  XEndBug = FALSE
 SPECIFICATION CSpec
 INVARIANTS DriftFree
 CHECK_DEADLOCK FALSE
